@@ -60,6 +60,12 @@ def apply_contract(ip, contract, info, args, kwargs):
         if p.startswith('ghost.'):
             g = p[6:]
             ip.state.ghost[g] = fresh_like(ip, ip.state.ghost[g], 'g_' + g, contract.havoc_kinds.get(p))
+        elif p.startswith('field:'):
+            cn, a = p[6:].rsplit('.', 1)
+            arr, kind = ip.state.fields[(cn, a)]
+            ip.state.fields[(cn, a)] = (ip.ctx.fresh('fld_%s_%s' % (cn, a), arr.sort()), kind)
+            if (cn, a) in ip.state.field_len:
+                ip.state.field_len[(cn, a)] = ip.ctx.fresh('fldlen_%s_%s' % (cn, a), ip.state.field_len[(cn, a)].sort())
         elif p.startswith('class:'):
             q, a = p[6:].rsplit('.', 1)
             cur = ip.state.class_over.get((q, a))
